@@ -61,9 +61,12 @@ KEY_TRACE_OBJ = "least_squares: trace objective is not the objective of its cand
 KEY_GLOBAL = "least_squares: linear residual does not reach the bounded global minimum"
 KEY_EXC = "least_squares: unexpected exception"
 
-# objective gap tolerated for linear residuals: gap <= GAP_ATOL + GAP_RTOL * f(clip(x0))  (see _calibration in run())
-GAP_ATOL = 1e-9
-GAP_RTOL = 1e-9
+# objective gap tolerated for linear residuals, see gap_tolerance()
+GAP_ATOL = 1e-12
+GAP_RTOL = 1e-12
+GAP_K = 100.0
+GTOL = 1e-8     # least_squares default gtol
+XTOL = 1e-8     # least_squares default xtol
 ULP_ROUNDING = 16   # an excursion of at most this many ulp of max(|x|,|bound|) is "rounding size"
 
 
@@ -123,6 +126,12 @@ SCALES = [None, 1.0, 0.5, (0.1, 10.0, 3.0), (3.0, 0.7, 0.3), "jac"]
 SCALES_THOROUGH = [1e-3, (1e3, 1e-3, 1.0)]
 GRID_QUICK = (-0.7, -0.3, 0.1, 0.2, 0.5, 1.1)
 GRID_THOROUGH = (-1.3, -0.7, -0.3, -0.1, 0.0, 0.1, 0.2, 0.3, 0.5, 0.7, 1.1, 2.3)
+
+
+# smallest members of the lattice, tried first (identity A, b=(-1,-1), box [-0.3,0.5]^2, no scaling)
+WITNESSES = [(("lin", "I2", 0), "wide", None, (0.1, 0.2)),
+             (("lin", "I2", 0), "wide", None, (0.1, 0.1)),
+             (("lin", "I2", 0), "wide", None, (0.5, 0.5))]
 
 
 def families(thorough):
@@ -236,6 +245,33 @@ def ulps_outside(p, lo, hi, mag=None):
         elif v > h:
             worst = max(worst, (v - h) / np.spacing(m))
     return worst
+
+
+def gap_tolerance(A, scale, n, fstar, status="G_TOL", mu=0.0, xnorm=0.0):
+    """Objective gap the documented termination rule itself allows, with head-room.
+
+    least_squares stops when the free gradient *in scaled coordinates* has norm <= gtol (1e-8).  For a linear residual
+    the objective is then within gtol^2 / (2*lambda_min+) of the optimum, lambda_min+ the smallest non-zero eigenvalue
+    of the scaled Gauss-Newton Hessian D A^T A D restricted to the free variables (minimum over all free sets).  GAP_K times that, plus a floor for rounding."""
+    if scale is None:
+        D = np.ones(n)
+    elif isinstance(scale, str):
+        D = 1.0 / np.maximum(np.linalg.norm(A, axis=0), np.finfo(np.float64).eps ** 0.5)
+    else:
+        D = np.ones(n) * np.asarray(scale if not isinstance(scale, tuple) else scale[:n], dtype=np.float64)
+    H = (A * D).T @ (A * D)
+    lam = math.inf
+    for k in range(1, n + 1):            # any subset of the variables may be the free set at termination
+        for S in itertools.combinations(range(n), k):
+            ev = np.linalg.eigvalsh(H[np.ix_(S, S)])
+            lam = min([lam] + [e for e in ev if e > 1e-12 * max(ev[-1], np.finfo(float).tiny)])
+    g = GTOL
+    if status == "DX_TOL":
+        # documented relative-step rule: the last step D*dz is shorter than xtol*(xtol+|x|) where dz solves
+        # (H + mu I) dz = -g on the free set, hence |g_free| <= (lambda_max + mu) * |dz|.
+        dz = XTOL * (XTOL + xnorm) / float(np.min(D))
+        g = max(g, (float(np.linalg.eigvalsh(H)[-1]) + mu) * dz)
+    return GAP_ATOL + GAP_RTOL * fstar + GAP_K * g ** 2 / (2.0 * lam)
 
 
 def run_one(mz, fam, amenu, bname, bounds_menu, scale, x0, part, calib=None):
@@ -355,10 +391,12 @@ def run_one(mz, fam, amenu, bname, bounds_menu, scale, x0, part, calib=None):
             part.add("boundary_excluded")   # solver did not converge within max_iter: excluded from the optimum oracle
         else:
             gap = fr - fstar
-            tol = GAP_ATOL + GAP_RTOL * f0
+            xnorm = max(float(np.linalg.norm(np.asarray(t.candidate))) for t in trace[-2:])
+            tol = gap_tolerance(A, scale, n, fstar, status, float(trace[-1].regularizer), xnorm)
             part.add("linear_optimum_compared")
+            part.add("linear_gap_within_100x_of_tolerance", 1 if gap > 0.01 * tol else 0)
             if calib is not None:
-                calib.append((gap / tol, fam, bname, scale, x0.tolist(), status))
+                calib.append((gap / tol, gap, fstar, f0, fam, bname, scale, x0.tolist(), status))
             if not gap <= tol:
                 part.violation(KEY_GLOBAL, "objective %r at returned x=%s exceeds the bounded optimum %r (at %s) by %.3g > tol %.3g "
                                "(status %s); family=%s bounds=%s x_scale=%r x0=%s"
@@ -410,6 +448,13 @@ def run(ctx):
     if ctx.thorough:
         bmenu.update(BOUNDS_THOROUGH)
         scales += SCALES_THOROUGH
+    # canonical minimal witnesses first, in the parent and in a fixed order, so that the replay recorded for a root-cause
+    # key does not depend on the dispatch order (the same cases are part of the lattice; only violations are kept)
+    wpart = core.Part()
+    for fam, bn, sc, x0 in WITNESSES:
+        run_one(mz, fam, amenu, bn, bmenu, sc, x0, wpart)
+    for v in wpart["violations"]:
+        ctx.violation(v["key"], v["what"], v.get("replay"))
     items = [(f, bn, s) for f in fams for bn in bmenu for s in scales]
     core.pmap(ctx, _chunk, items, nchunks=min(len(items), core.NCPU * 8))
     grid = GRID_THOROUGH if ctx.thorough else GRID_QUICK
@@ -432,5 +477,30 @@ def run(ctx):
         "boxes are >= 64 finite-difference steps wide (property: 'bounds wider than the finite-difference step')",
         "objective comparisons are exact because the check recomputes 0.5*r.T@r with the same numpy arithmetic as "
         "minimize.Quadratic.value on the same points",
-        "global-optimum oracle: gap <= %g + %g*f(clip(x0)); runs ending in MAX_ITER are counted as boundary_excluded" % (GAP_ATOL, GAP_RTOL),
+        "global-optimum oracle for linear residuals: gap <= %g + %g*f* + %g*g^2/(2*lambda) where g = gtol (or the gradient "
+        "bound implied by the xtol rule for runs ending in DX_TOL) and lambda the smallest non-zero eigenvalue of the scaled "
+        "Gauss-Newton Hessian over all free sets, i.e. %gx what the documented termination rules allow; on the unchanged "
+        "lattice no run comes within 100x of it (coverage.linear_gap_within_100x_of_tolerance); runs ending in MAX_ITER are "
+        "counted as boundary_excluded" % (GAP_ATOL, GAP_RTOL, GAP_K, GAP_K),
     ]
+
+
+def replay(ctx, path):
+    """./check C46 --replay <file>: re-run the single recorded (family, box, x_scale, x0) case; no evidence is written."""
+    import json
+    rep = json.load(open(path))["replay"]
+    mz = tree_minimize()
+    amenu = families(True)[1]
+    fam = tuple(rep["family"])
+    n = make_family(fam, amenu)[0]
+    pad = [0.0] * (3 - n)
+    menu = {"replay": (tuple(rep["lower"]) + tuple(pad), tuple(rep["upper"]) + tuple(pad))}
+    scale = rep["x_scale"]
+    if isinstance(scale, list):
+        scale = tuple(scale) + tuple([1.0] * (3 - len(scale)))
+    part = core.Part()
+    run_one(mz, fam, amenu, "replay", menu, scale, tuple(rep["x0"]), part)
+    for v in part["violations"]:
+        print("VIOLATION property=C46 replay=%s\n  [%s] %s" % (path, v["key"], v["what"][:600]))
+    print("replayed 1 case against %s: %d violation(s)" % (mz.__file__, len(part["violations"])))
+    return 1 if part["violations"] else 0
